@@ -24,7 +24,8 @@ CONSTANTS Outs,        \* outpoint identifiers
           WithCrash,           \* explore crashes at all
           HeadInBatch,         \* the block batch also carries the head pointer (go-quai since fix 1accffa2)
           CrashInHeadWindow,   \* also crash between a block's batch commit and its head-pointer write
-          SpendTrimCandidate   \* allow blocks that spend an output in the very block that trims it
+          SpendTrimCandidate,  \* allow blocks that spend an output in the very block that trims it
+          WithTamper           \* explore adversarial copies of blocks (C07)
 
 Gen == 0   \* the genesis block id
 
@@ -83,7 +84,7 @@ ValidOn(sp, cr, parent) ==
 
 ----------------------------------------------------------------------------
 Init ==
-    /\ blocks = (Gen :> [parent |-> -1, height |-> 0, spent |-> {}, created |-> {}, trimmable |-> {}])
+    /\ blocks = (Gen :> [parent |-> -1, height |-> 0, spent |-> {}, created |-> {}, trimmable |-> {}, honest |-> TRUE])
     /\ dbUtxo = {}
     /\ dbCanon = [h \in 0..MaxHeight |-> IF h = 0 THEN Gen ELSE -1]
     /\ dbHead = Gen
@@ -108,8 +109,19 @@ Mine(p, sp, cr, tr) ==
     /\ (IF SpendTrimCandidate \/ (blocks[p].height + 1 <= TrimDepth) THEN TRUE
         ELSE (sp \cap blocks[AncestorAt(p, blocks[p].height + 1 - TrimDepth)].trimmable) = {})
     /\ LET id == Cardinality(Ids) IN
-       /\ blocks' = blocks @@ (id :> [parent |-> p, height |-> blocks[p].height + 1, spent |-> sp, created |-> cr, trimmable |-> tr])
+       /\ blocks' = blocks @@ (id :> [parent |-> p, height |-> blocks[p].height + 1, spent |-> sp, created |-> cr, trimmable |-> tr, honest |-> TRUE])
        /\ Log([op |-> "mine", b |-> id, p |-> p, sp |-> sp, cr |-> cr, tr |-> tr])
+    /\ UNCHANGED <<dbUtxo, dbCanon, dbHead, dbUndo, dbMu, dbSize, cur, todo, aborted, interrupted, crashedEver>>
+
+\* ---- an adversary re-seals a copy of block b whose body or declared results deviate from re-execution
+\*      (C07): same parent, same claimed effects, but validation (Process / ValidateState) will not reproduce them
+Tamper(b) ==
+    /\ Idle /\ b \in Ids /\ b # Gen /\ blocks[b].honest
+    /\ Cardinality(Ids) <= MaxBlocks
+    /\ interrupted = -1
+    /\ LET id == Cardinality(Ids) IN
+       /\ blocks' = blocks @@ (id :> [blocks[b] EXCEPT !.honest = FALSE])
+       /\ Log([op |-> "tamper", b |-> id, p |-> blocks[b].parent, sp |-> {}, cr |-> {}, tr |-> {}])
     /\ UNCHANGED <<dbUtxo, dbCanon, dbHead, dbUndo, dbMu, dbSize, cur, todo, aborted, interrupted, crashedEver>>
 
 \* ---- HeaderChain.SetCurrentHeader(target): plan the primitive writes
@@ -153,6 +165,7 @@ WBatch ==
     /\ LET b == Op[2]
            bk == blocks[b]
            ok == /\ ~aborted
+                 /\ bk.honest                    \* ValidateState: re-execution reproduces every declared result
                  /\ bk.spent \subseteq (dbUtxo \cup bk.created)
                  /\ dbHead = bk.parent
            S1 == (dbUtxo \cup bk.created) \ bk.spent
@@ -219,6 +232,7 @@ Next ==
     /\ steps < MaxSteps
     /\ \/ \E p \in Ids, sp \in SUBSET Outs, cr \in SUBSET Outs, tr \in SUBSET Outs : Mine(p, sp, cr, tr)
        \/ \E t \in Ids : SetHeadBegin(t)
+       \/ (WithTamper /\ \E b \in Ids : Tamper(b))
        \/ WCanon \/ WBatch \/ WHead \/ WRollback
        \/ Crash \/ Restart
 
@@ -252,6 +266,16 @@ CommitmentEqualsContent ==
 RECURSIVE SpentAlong(_)
 SpentAlong(b) == IF b = Gen THEN <<>> ELSE SpentAlong(blocks[b].parent) \o SetToSeq(blocks[b].spent)
 SpentAtMostOnce == Quiescent => \A i, j \in DOMAIN SpentAlong(dbHead) : i # j => SpentAlong(dbHead)[i] # SpentAlong(dbHead)[j]
+
+\* C07: a block whose contents deviate from re-execution never becomes canonical and is never applied ...
+TamperedRejected == /\ blocks[dbHead].honest
+                    /\ \A h \in 0..MaxHeight : dbCanon[h] # -1 /\ Quiescent => blocks[dbCanon[h]].honest
+                    /\ \A b \in DOMAIN dbUndo : blocks[b].honest
+\* ... and refusing it writes nothing to chain state (the step that aborts changes at most the canonical slot
+\* it had just written itself)
+RejectIsNoOp ==
+    [][(aborted' /\ ~aborted) => /\ dbUtxo' = dbUtxo /\ dbHead' = dbHead /\ dbUndo' = dbUndo
+                                 /\ dbMu' = dbMu /\ dbSize' = dbSize /\ cur' = cur]_vars
 
 TypeOK == /\ dbUtxo \subseteq Outs /\ dbHead \in Ids
 
